@@ -303,6 +303,28 @@ Example C19_retry_deadline_example :
   /\ option_map (fun s => applied (t_st s)) (trun 30 50 tinit (l ++ [(80%N, Fire true)])%list) = Some (Some 3%N).
 Proof. vm_compute. auto. Qed.
 
+(* the same for the frr-k8s debouncer ([tkstep iv], Model/Debounce.v (2t)): the event owed to the first notification
+   of a window is emitted from [now + iv] on and not before, however many notifications follow (the frr-k8s session
+   manager notifies on EVERY NewSession / Set / Close: a steady stream must not starve the reconcile) *)
+Theorem C19_k8s_debounce_not_postponed : forall iv s now s1 l s2,
+  k_timer (tk_st s) = false -> tkstep iv s (now, KNotify) = Some s1 ->
+  k_all_notify l = true -> tkrun iv s1 l = Some s2 ->
+  tk_deadline s2 = Some (now + iv)%N
+  /\ (forall t, (now + iv <= t)%N -> exists s3, tkstep iv s2 (t, KFire) = Some s3 /\ k_out (tk_st s3) = N.succ (k_out (tk_st s2)))
+  /\ (forall t, (t < now + iv)%N -> tkstep iv s2 (t, KFire) = None).
+Proof. exact k_debounce_not_postponed. Qed.
+
+Theorem C19_k8s_timed_refines : forall iv l s,
+  tkrun iv tkinit l = Some s -> krun kinit (map snd l) = Some (tk_st s).
+Proof. exact tk_refines. Qed.
+
+Example C19_k8s_deadline_example :
+  let l := [(0, KNotify); (10, KNotify); (20, KNotify); (29, KNotify)]%N in
+  option_map tk_deadline (tkrun 30 tkinit l) = Some (Some 30%N)
+  /\ tkrun 30 tkinit (l ++ [(29%N, KFire)])%list = None
+  /\ option_map (fun s => k_out (tk_st s)) (tkrun 30 tkinit (l ++ [(30%N, KFire)])%list) = Some 1%N.
+Proof. vm_compute. auto. Qed.
+
 (* validateReload asks for a re-apply exactly on a new time stamp with status "failure" (= 1) *)
 Theorem C19_validate_reload : forall fields prev,
   snd (validate_reload fields prev) = true <-> exists ts, fields = Some [ts; 1%N] /\ ts <> prev.
